@@ -369,6 +369,10 @@ func c07Gen(runSeed uint64, tier string) *gen.Scenario {
 		}
 		batches = append(batches, gen.Request{Kind: "batch", Items: items})
 	}
+	if items := g.RepeatedContextualTuple(sc.Model); items != nil && g.Chance(0.5) {
+		// one contextual tuple key carried twice with different condition contexts, in every item
+		batches = append(batches, gen.Request{Kind: "batch", Items: items})
+	}
 	sc.Requests = batches
 	sc.Knobs["batch_conc"] = []int64{1, 2, 25}[g.Intn(3)]
 	sc.Knobs["query_cache"] = int64(g.Intn(2))
@@ -424,6 +428,22 @@ func c07Exec(t *testing.T, sc *gen.Scenario, trace bool) *harness.Outcome {
 				var ierr error
 				if o.Err != "" {
 					ierr = errors.New(o.Err)
+				}
+				if it.Limit == 77 {
+					// items that repeat a contextual tuple key: what such a request means is whatever an
+					// individual Check makes of it, and the batch must agree with exactly that
+					if ierr != nil {
+						continue
+					}
+					ctx, cancel := reqCtx(bi, fmt.Sprintf(".single%d", i), 10*time.Second)
+					single, serr := e.SrvCheck(ctx, s, it)
+					cancel()
+					e.Out.Evals++
+					if serr == nil && single != o.Allowed && !faulty {
+						e.Violate("batch_differs_from_individual_check", "repeated_contextual_tuple_key", "batch %d item i%d (%+v): BatchCheck says allowed=%v, the same request as an individual Check says %v", bi, i, it, o.Allowed, single)
+						return
+					}
+					continue
 				}
 				// an injected fault excuses the item whose evaluation it hit — that item's error names the
 				// fault (or is the bare deadline error the engine turns a wrapped one into); any other error
